@@ -71,8 +71,8 @@ def main():
             out["tests_pass"] = rc == 0
             out["tests_tail"] = tail
         if os.path.exists(demo):
-            rc1, o1 = run([PY, demo], bad, timeout=300)
-            rc0, o0 = run([PY, demo], clean, timeout=300)
+            rc1, o1 = run([PY, demo], bad, timeout=300, env={"PYTHONPATH": bad})        # the demo imports the package of the tree it is run in
+            rc0, o0 = run([PY, demo], clean, timeout=300, env={"PYTHONPATH": clean})
             out["demo_fails_with_patch"] = rc1 != 0
             out["demo_passes_without"] = rc0 == 0
             out["demo_tail_patched"] = " | ".join(o1.strip().splitlines()[-3:])[-400:]
